@@ -36,28 +36,6 @@ Definition p_var (v : avar) : list tok := match v with AV dd ii => [VAR dd ii] |
 Definition angle (l : list (list tok)) : list tok :=
   match l with [] => [] | _ => P PLt :: sep_by comma l ++ [P PGt] end.
 
-Fixpoint p_ty (t : aty) : list tok :=
-  match t with
-  | TVar v => p_var v
-  | TAdt n args => ID n :: angle (map p_garg args)
-  | TScalar s => [KW (Kscalar s)]
-  | TTuple ts =>
-      match ts with
-      | [t1] => P PLParen :: p_ty t1 ++ [P PComma; P PRParen]
-      | _ => P PLParen :: sep_by comma (map p_ty ts) ++ [P PRParen]
-      end
-  | TRef m l t => P PAmp :: p_lt l ++ (if m then [KW Kmut] else []) ++ p_ty t
-  | TRaw m t => P PStar :: KW (if m then Kmut else Kconst) :: p_ty t
-  | TSlice t => P PLBracket :: p_ty t ++ [P PRBracket]
-  | TArray t c => P PLBracket :: p_ty t ++ [P PSemi] ++ p_konst c ++ [P PRBracket]
-  | TStr => [KW Kstr]
-  | TNever => [P PBang]
-  end
-with p_garg (a : agarg) : list tok :=
-  match a with GTy t => p_ty t | GLt l => p_lt l | GCVal n => [NUM n] | GCVar c => match c with end end.
-
-Definition p_args (args : list agarg) : list tok := angle (map p_garg args).
-
 (** the names the writer gives to the variables a binder at inverted depth [D] introduces,
     starting at index [i] *)
 Definition btok (k : kind) (D i : nat) : list tok :=
@@ -77,18 +55,59 @@ Fixpoint p_binder_names (D i : nat) (ks : list kind) : list (list tok) :=
 
 Definition p_params (D i : nat) (ks : list kind) : list tok := angle (p_binder_names D i ks).
 
-Definition p_wc (w : awc) : list tok :=
+(** [k]: the number of binder levels open where the type is printed (the writer's
+    [debrujin_indices_deep]); it only matters for the names of the binders a type introduces *)
+Fixpoint p_ty (k : nat) (t : aty) : list tok :=
+  match t with
+  | TVar v => p_var v
+  | TAdt n args => ID n :: angle (map (p_garg k) args)
+  | TScalar s => [KW (Kscalar s)]
+  | TTuple ts =>
+      match ts with
+      | [t1] => P PLParen :: p_ty k t1 ++ [P PComma; P PRParen]
+      | _ => P PLParen :: sep_by comma (map (p_ty k) ts) ++ [P PRParen]
+      end
+  | TRef m l t => P PAmp :: p_lt l ++ (if m then [KW Kmut] else []) ++ p_ty k t
+  | TRaw m t => P PStar :: KW (if m then Kmut else Kconst) :: p_ty k t
+  | TSlice t => P PLBracket :: p_ty k t ++ [P PRBracket]
+  | TArray t c => P PLBracket :: p_ty k t ++ [P PSemi] ++ p_konst c ++ [P PRBracket]
+  | TStr => [KW Kstr]
+  | TNever => [P PBang]
+  | TFn nb unsafe variadic args ret =>
+      match nb with O => [] | _ => KW Kfor :: p_params (S k) 0 (repeat KLt nb) end
+      ++ (if unsafe then [KW Kunsafe] else [])
+      ++ [KW Kfn; P PLParen]
+      ++ sep_by comma (map (p_ty (S k)) args ++ (if variadic then [[P PDots]] else []))
+      ++ [P PRParen; P PArrow] ++ p_ty (S k) ret
+  | TDyn bounds l =>
+      match bounds with
+      | [] => [KW Kdyn; P PPlus]
+      | _ => KW Kdyn :: concat (map (fun b => p_dbound (S (S k)) b ++ [P PPlus]) bounds)
+      end ++ p_lt l
+  end
+with p_garg (k : nat) (a : agarg) : list tok :=
+  match a with GTy t => p_ty k t | GLt l => p_lt l | GCVal n => [NUM n] | GCVar c => match c with end end
+with p_dbound (k : nat) (b : adbound) : list tok :=
+  match b with
+  | DB ks tr args =>
+      match ks with [] => [] | _ => KW Kforall :: p_params k 0 ks end
+      ++ ID tr :: angle (map (p_garg k) args)
+  end.
+
+Definition p_args (k : nat) (args : list agarg) : list tok := angle (map (p_garg k) args).
+
+Definition p_wc (k : nat) (w : awc) : list tok :=
   match w with
-  | WImpl self tr args => p_ty self ++ [P PColon; ID tr] ++ p_args args
+  | WImpl self tr args => p_ty k self ++ [P PColon; ID tr] ++ p_args k args
   | WLtOut a b => p_lt a ++ [P PColon] ++ p_lt b
-  | WTyOut t l => p_ty t ++ [P PColon] ++ p_lt l
+  | WTyOut t l => p_ty k t ++ [P PColon] ++ p_lt l
   end.
 
 (** a quantified where clause sits one binder level below the item: its binder is level [D] *)
 Definition p_qwc (D : nat) (q : aqwc) : list tok :=
   match fst q with
-  | [] => p_wc (snd q)
-  | ks => KW Kforall :: p_params D 0 ks ++ p_wc (snd q)
+  | [] => p_wc D (snd q)
+  | ks => KW Kforall :: p_params D 0 ks ++ p_wc D (snd q)
   end.
 
 Definition p_where (D : nat) (wcs : list aqwc) : list tok :=
@@ -97,11 +116,14 @@ Definition p_where (D : nat) (wcs : list aqwc) : list tok :=
 Definition attr (b : bool) (k : kw) : list tok := if b then [P PHash; P PLBracket; KW k; P PRBracket] else [].
 
 Fixpoint p_fields (i : nat) (fs : list aty) : list (list tok) :=
-  match fs with [] => [] | t :: r => (FIELD i :: P PColon :: p_ty t) :: p_fields (S i) r end.
+  match fs with [] => [] | t :: r => (FIELD i :: P PColon :: p_ty 1 t) :: p_fields (S i) r end.
+
+Definition attr_repr (b : bool) (k : kw) : list tok :=
+  if b then [P PHash; P PLBracket; KW Krepr; P PLParen; KW k; P PRParen; P PRBracket] else [].
 
 Definition sattrs (fl : sflags) : list tok :=
   attr fl.(sf_upstream) Kupstream ++ attr fl.(sf_fundamental) Kfundamental ++ attr fl.(sf_phantom_data) Kphantom_data
-  ++ attr fl.(sf_one_zst) Kone_zst.
+  ++ attr fl.(sf_one_zst) Kone_zst ++ attr_repr fl.(sf_repr_c) KC ++ attr_repr fl.(sf_repr_packed) Kpacked.
 
 Fixpoint p_variants (i : nat) (vs : list (list aty)) : list tok :=
   match vs with
@@ -115,8 +137,7 @@ Definition p_item (it : aitem) : list tok :=
       sattrs fl ++ [KW Kenum; ID name] ++ p_params 1 0 params ++ p_where 2 wcs
       ++ [P PLBrace] ++ p_variants 0 variants ++ [P PRBrace]
   | IStruct name params fl fields wcs =>
-      attr fl.(sf_upstream) Kupstream ++ attr fl.(sf_fundamental) Kfundamental ++ attr fl.(sf_phantom_data) Kphantom_data
-      ++ attr fl.(sf_one_zst) Kone_zst ++ [KW Kstruct; ID name] ++ p_params 1 0 params ++ p_where 2 wcs
+      sattrs fl ++ [KW Kstruct; ID name] ++ p_params 1 0 params ++ p_where 2 wcs
       ++ [P PLBrace] ++ sep_by comma (p_fields 0 fields) ++ [P PRBrace]
   | ITrait name params fl wcs =>
       attr fl.(tf_auto) Kauto ++ attr fl.(tf_marker) Kmarker ++ attr fl.(tf_upstream) Kupstream
@@ -125,7 +146,7 @@ Definition p_item (it : aitem) : list tok :=
       ++ [KW Ktrait; ID name] ++ p_params 1 1 params ++ p_where 2 wcs ++ [P PLBrace; P PRBrace]
   | IImpl params upstream positive tr args self wcs =>
       attr upstream Kupstream ++ [KW Kimpl] ++ p_params 1 0 params
-      ++ (if positive then [] else [P PBang]) ++ [ID tr] ++ p_args args ++ [KW Kfor] ++ p_ty self
+      ++ (if positive then [] else [P PBang]) ++ [ID tr] ++ p_args 1 args ++ [KW Kfor] ++ p_ty 1 self
       ++ p_where 2 wcs ++ [P PLBrace; P PRBrace]
   end.
 
@@ -168,6 +189,8 @@ Section Unresolve.
     | TArray t c => TArray (u_ty k t) (u_konst k c)
     | TStr => TStr
     | TNever => TNever
+    | TFn nb unsafe variadic args ret => TFn nb unsafe variadic (map (u_ty (S k)) args) (u_ty (S k) ret)
+    | TDyn bounds l => TDyn (map (u_dbound (S (S k))) bounds) (u_lt k l)
     end
   with u_garg (k : nat) (a : igarg) : agarg :=
     match a with
@@ -175,7 +198,9 @@ Section Unresolve.
     | GLt l => GLt (u_lt k l)
     | GCVal n => GCVal n
     | GCVar v => GTy (TVar (AV (k - fst v) (snd v)))     (* a bare parameter name *)
-    end.
+    end
+  with u_dbound (k : nat) (b : idbound) : adbound :=
+    match b with DB ks tr args => DB ks (name_of tr) (map (u_garg k) args) end.
 
   Definition u_wc (k : nat) (w : iwc) : awc :=
     match w with
